@@ -87,6 +87,7 @@ class SimServer:
         self.user_answer: Callable[[ServerSession, str], Optional[str]] = self._default_user_answer
         self.address_answer: Optional[Callable[[ServerSession, str], Any]] = None
         self.relay_connect_to_peer = True
+        self.omit_obfuscated_fields = False
         self.on_frame: Optional[Callable[[ServerSession, Any], None]] = None
         self.listener = None
 
@@ -190,7 +191,11 @@ class SimServer:
                 session.send(GetPeerAddress.Response(msg.username, '0.0.0.0', 0, 0, 0))
             else:
                 ip, port, obf = addr
-                session.send(GetPeerAddress.Response(msg.username, ip, port, 1 if obf else 0, obf))
+                if self.omit_obfuscated_fields and not obf:
+                    # the obfuscated-port fields are optional on the wire: a server may leave them out
+                    session.send(GetPeerAddress.Response(msg.username, ip, port))
+                else:
+                    session.send(GetPeerAddress.Response(msg.username, ip, port, 1 if obf else 0, obf))
         elif isinstance(msg, AddUser.Request):
             ans = self.user_answer(session, msg.username)
             if ans == 'exists':
@@ -209,9 +214,12 @@ class SimServer:
             me = session.username or ''
             ip = self.net.ip_of(me)
             if target is not None and target.open:
-                target.send(ConnectToPeer.Response(
-                    me, msg.typ, ip, session.port, msg.ticket, False,
-                    1 if session.obf_port else 0, session.obf_port))
+                if self.omit_obfuscated_fields and not session.obf_port:
+                    target.send(ConnectToPeer.Response(me, msg.typ, ip, session.port, msg.ticket, False))
+                else:
+                    target.send(ConnectToPeer.Response(
+                        me, msg.typ, ip, session.port, msg.ticket, False,
+                        1 if session.obf_port else 0, session.obf_port))
             else:
                 f = self.fake_users.get(msg.username)
                 if f is not None and f['cb'] is not None:
